@@ -241,6 +241,8 @@ Definition lww_hop (s : lww) : lww :=
      OWrite r a      replica r performs the local update a on its own state (writer id = r)
      OSnap r g       a snapshot of r's state is put in the pool (g: it went through gob)
      ODeliver d m    replica d merges message m of the pool (any message, any number of times, any order) *)
+Definition fupd {T} (f : Z -> T) (r : Z) (x : T) : Z -> T := fun r' => if r' =? r then x else f r'.
+
 Section Sys.
   Variables (S A : Type).
   Variable init : S.
@@ -252,17 +254,15 @@ Section Sys.
 
   Record sys := mkSys { reps : Z -> S; pool : list S }.
 
-  Definition upd (f : Z -> S) (r : Z) (x : S) : Z -> S := fun r' => if r' =? r then x else f r'.
-
   Definition sys_init : sys := mkSys (fun _ => init) [].
 
   Definition step (st : sys) (o : op) : sys :=
     match o with
-    | OWrite r a => mkSys (upd (reps st) r (write r a (reps st r))) (pool st)
+    | OWrite r a => mkSys (fupd (reps st) r (write r a (reps st r))) (pool st)
     | OSnap r g => mkSys (reps st) (pool st ++ [if g then hop (reps st r) else reps st r])
     | ODeliver d m =>
         match nth_error (pool st) m with
-        | Some s => mkSys (upd (reps st) d (merge (reps st d) s)) (pool st)
+        | Some s => mkSys (fupd (reps st) d (merge (reps st d) s)) (pool st)
         | None => st
         end
     end.
@@ -281,6 +281,38 @@ Section Sys.
         let st' := step st o in
         (match affected o with Some r => Some (reps st' r) | None => None end) :: trace_from st' rest
     end.
+
+  (* Bookkeeping that defines "the updates delivered to a replica" (no influence on the states):
+     an update is identified by its writer and its sequence number among that writer's updates;
+     a write delivers the new update to its writer, a snapshot carries what its source had been
+     delivered, a merge delivers everything the message carries. The log also remembers, per writer,
+     the argument of every update and the writer's state right after it. *)
+  Record ev := mkEv { ev_rep : Z; ev_seq : nat; ev_arg : A }.
+
+  Record ghost := mkGhost { g_dl : Z -> list ev; g_pool : list (list ev); g_log : Z -> list (A * S) }.
+
+  Definition ghost_init : ghost := mkGhost (fun _ => []) [] (fun _ => []).
+
+  Definition gstep (st : sys) (g : ghost) (o : op) : ghost :=
+    match o with
+    | OWrite r a =>
+        mkGhost (fupd (g_dl g) r (mkEv r (List.length (g_log g r)) a :: g_dl g r)) (g_pool g)
+                (fupd (g_log g) r (g_log g r ++ [(a, write r a (reps st r))]))
+    | OSnap r _ => mkGhost (g_dl g) (g_pool g ++ [g_dl g r]) (g_log g)
+    | ODeliver d m =>
+        match nth_error (g_pool g) m with
+        | Some D => mkGhost (fupd (g_dl g) d (g_dl g d ++ D)) (g_pool g) (g_log g)
+        | None => g
+        end
+    end.
+
+  Definition xstep (x : sys * ghost) (o : op) : sys * ghost := (step (fst x) o, gstep (fst x) (snd x) o).
+  Definition xrun (ops : list op) : sys * ghost := fold_left xstep ops (sys_init, ghost_init).
+
+  (* the updates delivered to replica r by the history ops *)
+  Definition delivered (ops : list op) (r : Z) : list ev := g_dl (snd (xrun ops)) r.
+
+  Definition same_updates (D1 D2 : list ev) : Prop := forall e, In e D1 <-> In e D2.
 End Sys.
 
 Arguments OWrite {A}.
@@ -288,6 +320,14 @@ Arguments OSnap {A}.
 Arguments ODeliver {A}.
 Arguments reps {S}.
 Arguments pool {S}.
+Arguments mkEv {A}.
+Arguments ev_rep {A}.
+Arguments ev_seq {A}.
+Arguments ev_arg {A}.
+Arguments g_dl {S A}.
+Arguments g_pool {S A}.
+Arguments g_log {S A}.
+Arguments same_updates {A}.
 
 Definition gc_op := op Z.
 Definition aw_op := op (Z * Z).
@@ -305,12 +345,15 @@ Fixpoint zinsert (x : Z) (l : list Z) : list Z :=
   end.
 Definition zsort (l : list Z) : list Z := fold_right zinsert [] l.
 
+(* observation per op: None = not compared (ops the harness performs differently, see props/c12.py),
+   Some None = no read expected (snapshot), Some (Some v) = the read observed on the Go side *)
 Definition olist_eqb {T} (eqb : T -> T -> bool) :=
-  fix go (a b : list (option T)) : bool :=
+  fix go (a : list (option T)) (b : list (option (option T))) : bool :=
     match a, b with
     | [], [] => true
-    | None :: a', None :: b' => go a' b'
-    | Some x :: a', Some y :: b' => eqb x y && go a' b'
+    | _ :: a', None :: b' => go a' b'
+    | None :: a', Some None :: b' => go a' b'
+    | Some x :: a', Some (Some y) :: b' => eqb x y && go a' b'
     | _, _ => false
     end.
 
@@ -322,16 +365,16 @@ Fixpoint zlist_eqb (a b : list Z) : bool :=
   end.
 
 (* observed reads after each op (None for snapshots) and final reads of the listed replicas *)
-Definition gc_check (ops : list gc_op) (obs : list (option Z)) (fin : list (Z * Z)) : bool :=
+Definition gc_check (ops : list gc_op) (obs : list (option (option Z))) (fin : list (Z * Z)) : bool :=
   olist_eqb Z.eqb (map (option_map gc_read) (trace_from gc Z gc_write gc_merge gc_hop (sys_init gc gc_init) ops)) obs
   && forallb (fun rv => gc_read (reps (gc_run ops) (fst rv)) =? snd rv) fin.
 
-Definition aw_check (ops : list aw_op) (obs : list (option (list Z))) (fin : list (Z * list Z)) : bool :=
+Definition aw_check (ops : list aw_op) (obs : list (option (option (list Z)))) (fin : list (Z * list Z)) : bool :=
   olist_eqb zlist_eqb (map (option_map (fun s => zsort (aw_read s)))
                           (trace_from aw (Z * Z) aw_write aw_merge aw_hop (sys_init aw aw_init) ops)) obs
   && forallb (fun rv => zlist_eqb (zsort (aw_read (reps (aw_run ops) (fst rv)))) (snd rv)) fin.
 
-Definition lww_check (ops : list lww_op) (obs : list (option (list Z))) (fin : list (Z * list Z)) : bool :=
+Definition lww_check (ops : list lww_op) (obs : list (option (option (list Z)))) (fin : list (Z * list Z)) : bool :=
   olist_eqb zlist_eqb (map (option_map (fun s => zsort (lww_read s)))
                           (trace_from lww (Z * Z * Z) lww_write lww_merge lww_hop (sys_init lww lww_init) ops)) obs
   && forallb (fun rv => zlist_eqb (zsort (lww_read (reps (lww_run ops) (fst rv)))) (snd rv)) fin.
